@@ -18,6 +18,12 @@ type CloneCase struct {
 	Mut        string      `json:"mut"`         // payload | csrc | extval | setnew | setreplace | del | scalar | padsize
 	Index      int         `json:"index"`
 	Side       string      `json:"side"` // mutate "orig" or "clone"
+	// EmptyByDel: before cloning, every extension is removed again with DelExtension, which
+	// leaves an empty extension list with spare capacity (as does reusing a Packet for Unmarshal)
+	EmptyByDel bool `json:"empty_by_del"`
+	// Both: after cloning, the mutation is applied to BOTH sides (with different values):
+	// each side must then show its own change only
+	Both bool `json:"both"`
 }
 
 var subC20 = register("C20", "clone", checkC20)
@@ -196,6 +202,14 @@ func checkC20(r *run, c *CloneCase) (CaseInfo, error) {
 			ci.class("nil-payload")
 		}
 	}
+	if c.EmptyByDel && orig.Extension && !isLegacyProfile(orig.ExtensionProfile) {
+		for _, id := range orig.GetExtensionIDs() {
+			if err := orig.DelExtension(id); err != nil {
+				return ci, failf("DelExtension(%d): %v", id, err)
+			}
+		}
+		ci.class("extensions-emptied-by-del")
+	}
 	before := fullObs(orig)
 	cl := orig.Clone()
 	if cl == nil {
@@ -213,6 +227,50 @@ func checkC20(r *run, c *CloneCase) (CaseInfo, error) {
 		return ci, failf("Header.Clone differs from the original:\n orig:  %s\n clone: %s", hbefore, got)
 	}
 
+	if c.Both {
+		// set a different new extension on each side: each must end up with exactly its own
+		ci.class("both-sides")
+		if !orig.Extension || isLegacyProfile(orig.ExtensionProfile) {
+			ci.class("mutation-not-applicable")
+
+			return ci, nil
+		}
+		var free []uint8
+		for cand := uint8(1); cand <= 14 && len(free) < 2; cand++ {
+			if orig.GetExtension(cand) == nil {
+				free = append(free, cand)
+			}
+		}
+		if len(free) < 2 {
+			ci.class("mutation-not-applicable")
+
+			return ci, nil
+		}
+		a, b := orig, cl
+		if c.Side == "clone" {
+			a, b = cl, orig
+		}
+		if a.SetExtension(free[0], []byte{0x11}) != nil || b.SetExtension(free[1], []byte{0x22, 0x22}) != nil {
+			ci.class("mutation-not-applicable")
+
+			return ci, nil
+		}
+		ci.Nontrivial = true
+		for _, side := range []struct {
+			p        *rtp.Packet
+			own, not uint8
+			val      []byte
+		}{{a, free[0], free[1], []byte{0x11}}, {b, free[1], free[0], []byte{0x22, 0x22}}} {
+			if got := side.p.GetExtension(side.own); string(got) != string(side.val) {
+				return ci, failf("after SetExtension(%d) on one side and SetExtension(%d) on the other (clone taken before): GetExtension(%d)=%s, want %s; ids %v", free[0], free[1], side.own, hx(got), hx(side.val), side.p.GetExtensionIDs())
+			}
+			if got := side.p.GetExtension(side.not); got != nil {
+				return ci, failf("an extension added to one side after cloning shows up on the other: GetExtension(%d)=%s, ids %v", side.not, hx(got), side.p.GetExtensionIDs())
+			}
+		}
+
+		return ci, nil
+	}
 	// mutate one side, the other must not move
 	target, other := orig, cl
 	if c.Side == "clone" {
@@ -262,6 +320,8 @@ func genCloneCase(t *rapid.T) *CloneCase {
 	c.Mut = rapid.SampledFrom([]string{"payload", "csrc", "extval", "extval", "setnew", "setreplace", "del", "scalar", "padsize"}).Draw(t, "mut")
 	c.Index = rapid.IntRange(0, 4095).Draw(t, "index")
 	c.Side = rapid.SampledFrom([]string{"orig", "clone"}).Draw(t, "side")
+	c.EmptyByDel = rapid.IntRange(0, 4).Draw(t, "emptybydel") == 0
+	c.Both = rapid.IntRange(0, 4).Draw(t, "both") == 0
 	// make the chosen mutation applicable most of the time
 	m := &c.Model
 	switch c.Mut {
@@ -282,7 +342,7 @@ func genCloneCase(t *rapid.T) *CloneCase {
 	return c
 }
 
-const ruleC20 = "C01's well-formed packets (built through the API, or obtained from Unmarshal so that all slices alias one wire buffer; nil and empty payload/CSRC) x one mutation {flip payload byte, change CSRC entry, flip a byte of an extension value through the slice GetExtension returns, SetExtension new/replace, DelExtension, scalar field, padding size} applied to the original or to the clone; oracle: clone observably equal (all fields, ids, values, Marshal bytes), untouched side unchanged after the mutation; same for Header.Clone. Non-trivial = the mutation was applicable; distinct = FNV-64 of the JSON case"
+const ruleC20 = "C01's well-formed packets (built through the API, or obtained from Unmarshal so that all slices alias one wire buffer; nil and empty payload/CSRC) x one mutation {flip payload byte, change CSRC entry, flip a byte of an extension value through the slice GetExtension returns, SetExtension new/replace, DelExtension, scalar field, padding size} applied to the original or to the clone, or a different new extension set on BOTH sides; optionally the extension list is first emptied again with DelExtension (length 0, spare capacity); oracle: clone observably equal (all fields, ids, values, Marshal bytes), untouched side unchanged after the mutation; same for Header.Clone. Non-trivial = the mutation was applicable; distinct = FNV-64 of the JSON case"
 
 func TestC20(t *testing.T) {
 	r := begin(t, "C20", "exploration", ruleC20)
